@@ -130,10 +130,16 @@ def session (cp : Compiler) (progs : Nat → Prog) (outc : Nat → List Rat) (ar
       match run cp progs outc args e w ids with
       | .error err => pure ((Json.mkObj [("err", Json.str (errStr err))] :: acc).reverse, e, w)
       | .ok (e1, w1, t) => session cp progs outc args rest e1 w1 (Json.mkObj [("calls", jarr (t.map jcall))] :: acc)
-    | .error _ => do
-      let o ← asOpts (← a.getObjVal? "reset")
-      let (e1, w1, t) := reset e w o
-      session cp progs outc args rest e1 w1 (Json.mkObj [("calls", jarr (t.map jcall))] :: acc)
+    | .error _ =>
+      match a.getObjVal? "fresh" with
+      | .ok o => do
+        -- a newly constructed engine (the programs keep their state)
+        let o ← asOpts o
+        session cp progs outc args rest (fresh e.bk o e.mpos) w (Json.mkObj [("calls", jarr [])] :: acc)
+      | .error _ => do
+        let o ← asOpts (← a.getObjVal? "reset")
+        let (e1, w1, t) := reset e w o
+        session cp progs outc args rest e1 w1 (Json.mkObj [("calls", jarr (t.map jcall))] :: acc)
 
 def asHeap (j : Json) : R Heap := do
   let ops ← (← getArr j "ops").mapM fun o => do
